@@ -350,6 +350,19 @@ func (c *Core) StepDown(httpCtx context.Context, req *logical.Request) (retErr e
 		if authResults.Error.ErrorOrNil() == nil || authResults.DeniedError {
 			retErr = multierror.Append(retErr, logical.ErrPermissionDenied)
 		}
+		if te != nil && te.NumUses == tokenRevocationPending {
+			// The refused request was the final use of a use-limited token:
+			// the token and its leases still have to be revoked, as they are
+			// when any other request is the final use.
+			leaseID, err := c.expiration.CreateOrFetchRevocationLeaseByToken(c.activeContext.Load(), te)
+			if err == nil {
+				err = c.expiration.LazyRevoke(ctx, leaseID)
+			}
+			if err != nil {
+				c.logger.Error("token needed revocation after its final use but failed to revoke", "error", err)
+				retErr = multierror.Append(retErr, ErrInternalError)
+			}
+		}
 		return retErr
 	}
 
